@@ -235,7 +235,28 @@ def _name_of(node):
 
 
 def str_const(node, scope, depth=0):
-    """value of a string constant expression (see the module docstring); NotConstant otherwise"""
+    """value of a string constant expression (see the module docstring); NotConstant otherwise.
+    What the rules below do not cover is handed to the general constant-expression evaluator (harness/constexpr.py:
+    `"|".join(KEYWORDS)` over a tuple bound to a name, `string.digits`, a conditional expression, a subscript …), so
+    that a pattern whose definition was re-spelled is still found; its value must be a `str`."""
+    try:
+        return _str_const_basic(node, scope, depth)
+    except NotConstant as first:
+        if depth > 40:
+            raise
+        import constexpr
+        try:
+            v = constexpr.ceval(node, scope)
+        except NotConstant:
+            raise first
+        except RecursionError:
+            raise first
+        if not isinstance(v, str):
+            raise first
+        return v
+
+
+def _str_const_basic(node, scope, depth=0):
     if depth > 40:
         raise NotConstant("constant expression nested too deeply (a cycle?)")
     if isinstance(node, ast.Constant):
@@ -410,9 +431,11 @@ def _literal_strs(node):
     return None
 
 
-def _slice_text(node):
+def _slice_text(node, scope=None, depth=0):
     """`x[0:10]` → "[0:10]", `x.split()[0]` → "[0]", `line[0:21].lower()` → "[0:21].lower()" (only the subscript and
-    argument-less methods behind it, never a variable name)"""
+    argument-less methods behind it, never a variable name).  `m.group("name")` reads the field `m.groupdict()["name"]`
+    reads and is shown like it; a local name that is bound to one expression (apart from `= None` initialisations)
+    stands for that expression, so binding a field to a local first changes nothing."""
     tail = ""
     while isinstance(node, ast.Call) and isinstance(node.func, ast.Attribute) and not node.args and not node.keywords:
         tail = "." + node.func.attr + "()" + tail
@@ -426,6 +449,17 @@ def _slice_text(node):
                 return "[" + ast.unparse(sl) + "]" + tail
         elif isinstance(sl, ast.Constant) or (isinstance(sl, ast.UnaryOp) and isinstance(sl.operand, ast.Constant)):
             return "[" + ast.unparse(sl) + "]" + tail
+    if isinstance(node, ast.Call) and isinstance(node.func, ast.Attribute) and node.func.attr == "group" and len(node.args) == 1 \
+            and not node.keywords and isinstance(node.args[0], ast.Constant) and isinstance(node.args[0].value, str):
+        return "[" + ast.unparse(node.args[0]) + "]" + tail
+    if isinstance(node, ast.Name) and scope is not None and scope.func is not None and depth < 5:
+        vals, _, where = scope.lookup(node.id)
+        if where == "function":
+            vals = [v for v in vals if not (isinstance(v, ast.Constant) and v.value is None)]
+            if vals and all(v is not None for v in vals) and len({ast.dump(v) for v in vals}) == 1:
+                inner = _slice_text(vals[0], scope, depth + 1)
+                if inner:
+                    return inner + tail
     return ""
 
 
@@ -530,7 +564,7 @@ def scan_function(func, scope, kinds=("re", "str", "in", "cmp"), distinct=True):
                 side = "lit " + op if ll is not None else op
                 kind = "in" if side == "lit in" else "cmp"
                 if kind in kinds and lit != "":
-                    out.append((side, lit, _slice_text(other)))
+                    out.append((side, lit, _slice_text(other, scope)))
     if distinct:
         seen, uniq = set(), []
         for t in out:
